@@ -491,9 +491,21 @@ def sc123(P, C):
         if f.k(i) == "DeclStmt":
             for d in f.nodes[i]["decls"]:
                 if d.get("init", -1) >= 0:
-                    inits[d["name"]] = f.render(d["init"]).replace("this->", "").replace(" ", "")
-    C.ob("SC-2", "searchcenters", "search-interval", inits.get("min") == "order[i]" and inits.get("max") == "(nknots[i]-2)", f.where(),
-         "binary search over [order, nknots-2]: min=%s max=%s" % (inits.get("min"), inits.get("max")))
+                    inits[d["id"]] = re.sub(r"\[[A-Za-z_]\w*\]", "[#]", f.render(d["init"]).replace("this->", "").replace(" ", ""))
+    # roles by use, not by name: in the bisection step the upper end is the local assigned centre-1, the lower end the one assigned centre+1
+    lo_id = hi_id = None
+    dws = [i for i in f.walk() if f.k(i) == "DoStmt"]
+    if len(dws) == 1:
+        for x in f.walk(f.nodes[dws[0]]["body"]):
+            ap = ts.assign_parts(f, x)
+            if ap and ap[1] is not None and f.k(f.strip(ap[0])) == "DeclRefExpr":
+                r = f.render(ap[1]).replace(" ", "")
+                if re.fullmatch(r"\(centers\[\w+\]-1\)", r):
+                    hi_id = f.nodes[f.strip(ap[0])]["decl"]["id"]
+                if re.fullmatch(r"\(centers\[\w+\]\+1\)", r):
+                    lo_id = f.nodes[f.strip(ap[0])]["decl"]["id"]
+    C.ob("SC-2", "searchcenters", "search-interval", inits.get(lo_id) == "order[#]" and inits.get(hi_id) == "(nknots[#]-2)", f.where(),
+         "binary search over [order, nknots-2]: lower end starts at %s, upper end at %s" % (inits.get(lo_id), inits.get(hi_id)))
     # the bracket: the search loop can only be left with knots[c] <= x < knots[c+1]
     dw = [i for i in f.walk() if f.k(i) == "DoStmt"]
     okb = False
